@@ -1010,6 +1010,17 @@ pub fn alphabet(d: usize, vals: &[u8], with_batch: bool, with_plain: bool, extra
             ops.push(TreeOp::Init(vs));
         }
     }
+    // positions at the top of the integer range (start + length must not wrap around the capacity check)
+    if with_plain {
+        ops.push(TreeOp::Set(u64::MAX, vals[0]));
+        ops.push(TreeOp::Delete(u64::MAX));
+        ops.push(TreeOp::Range(u64::MAX, vec![vals[0]]));
+        ops.push(TreeOp::Range(u64::MAX - 1, vec![vals[0], vals[0]]));
+    }
+    if with_batch {
+        ops.push(TreeOp::Batch(u64::MAX, vec![vals[0]], vec![]));
+        ops.push(TreeOp::Batch(u64::MAX - 1, vec![vals[0], vals[0]], vec![0]));
+    }
     ops.extend_from_slice(extra);
     let mut seen = BTreeSet::new();
     ops.retain(|o| seen.insert(o.clone()));
